@@ -502,12 +502,13 @@ func (sd *SpecAnalyser) analyzeSchemaExtensions(schema1, schema2 *spec.Schema, c
 		sd.checkDeletedExtensions(schema1.Extensions, schema2.Extensions, diffLoc, "")
 		if schema1.Items != nil && schema2.Items != nil {
 			sd.analyzeSchemaExtensions(schema1.Items.Schema, schema2.Items.Schema, code, urlMethod)
+			// the items of a tuple are compared position by position
 			for i := range schema1.Items.Schemas {
-				s1 := schema1.Items.Schemas[i]
-				for j := range schema2.Items.Schemas {
-					s2 := schema2.Items.Schemas[j]
-					sd.analyzeSchemaExtensions(&s1, &s2, code, urlMethod)
+				if i >= len(schema2.Items.Schemas) {
+					break
 				}
+				s1, s2 := schema1.Items.Schemas[i], schema2.Items.Schemas[i]
+				sd.analyzeSchemaExtensions(&s1, &s2, code, urlMethod)
 			}
 		}
 	}
